@@ -212,24 +212,26 @@ def oracle(c, r):
 
 
 def vwap_tie(c):
-    """does any prefix of the walk produce an exact half-penny tie in the average price?"""
+    """could the average price be an exact half-penny tie?  Over-approximated on purpose (a tie only stops the comparison of one
+    case): every prefix of the ladder walk, in the order generated and in the order the stream cache lists it, and - for a
+    force-matching client - every prefix followed by the remainder at the order's own price"""
     avail = c["atb"] if c["side"] == "BACK" else c["atl"]
-    rem, a, b = frac(c["size"]), Fraction(0), Fraction(0)
-    for p, s in avail:
-        if rem == 0:
-            break
-        t = min(rem, frac(s))
-        a += frac(p) * t
-        b += t
-        rem -= t
-        if b and common.is_tie2(a / b):
+    size, own = frac(c["size"]), frac(c["price"])
+    for levels in (list(avail), sorted(avail, key=lambda ps: frac(ps[0]), reverse=(c["side"] == "BACK"))):
+        rem, a, b = size, Fraction(0), Fraction(0)
+        if c.get("full") and size and common.is_tie2(own):
             return True
-    if c.get("full") and rem > 0:
-        # a force-matching client fills what is left at the order's own price: one more term of the average
-        a += frac(c["price"]) * rem
-        b += rem
-        if common.is_tie2(a / b):
-            return True
+        for p, s in levels:
+            if rem == 0:
+                break
+            t = min(rem, frac(s))
+            a += frac(p) * t
+            b += t
+            rem -= t
+            if b and common.is_tie2(a / b):
+                return True
+            if c.get("full") and rem > 0 and common.is_tie2((a + own * rem) / (b + rem)):
+                return True
     return False
 
 
